@@ -142,6 +142,25 @@ Theorem C05_func_env_wired :
 Proof. exact gen_func_env_wired. Qed.
 Print Assumptions C05_func_env_wired.
 
+(* ... and WHERE the stand-in is installed (compileFilterFuncs regenerated statement by statement, IR/FuncEnv.v cff_exits): for
+   a file that has custom declarations -- functions or only types / constants / variables -- loaded without a rules package,
+   every way out of the function that is a success leaves the stand-in installed, and a package that was given is kept. *)
+Theorem C05_decls_package_stands_in_on_every_success :
+  (forall e, In e (cff_exits true false gen_cff_steps) -> fst e = true -> snd e = true)
+  /\ (exists e, In e (cff_exits true false gen_cff_steps) /\ fst e = true)
+  /\ (forall decls e, In e (cff_exits decls true gen_cff_steps) -> snd e = true).
+Proof. exact (conj (proj1 gen_stand_in_on_every_success) (conj (proj2 gen_stand_in_on_every_success) (given_package_kept gen_cff_steps))). Qed.
+Print Assumptions C05_decls_package_stands_in_on_every_success.
+
+(* The domain of the round-trip theorem leaves out zero-valued list elements (the printer writes nothing for them). For
+   lists of strings that is a fact about irconv: every value it stores in such a field (regenerated) is a strings.Fields
+   result. (Lists of structs: every element carries a source line; checked on every converted file of the run.) *)
+Theorem C05_string_lists_have_no_empty_element :
+  gen_irconv_string_list_producers <> []
+  /\ forallb (fun fp : string * string => String.prefix "strings.Fields(" (snd fp)) gen_irconv_string_list_producers = true.
+Proof. exact gen_string_lists_have_no_empty_element. Qed.
+Print Assumptions C05_string_lists_have_no_empty_element.
+
 Theorem C05_custom_functions_resolve :
   forall (fn : Type) (decls : list (string * fn)) (uses : list string) (e : env fn),
     (forall n, In n uses -> In n (map fst decls)) ->
